@@ -90,6 +90,7 @@ func (it *Interp) callBuiltin(name string, args []Value) Value {
 				return nil, false
 			}
 			it.noteMapRender(v)
+			big(v)
 			s := it.Pol.Str(v, 0)
 			it.checkStr(len(s))
 			return StrV(s), true
@@ -278,6 +279,7 @@ func (it *Interp) callBuiltin(name string, args []Value) Value {
 		if n != 1 {
 			wrongArgs(name)
 		}
+		big(args[0])
 		v, _ := it.freeze(args[0], map[interface{}]Value{}, 0)
 		return v
 	}
